@@ -350,6 +350,7 @@ pub fn run(tier: Tier, replay: Option<String>) -> i32 {
     }
     // huge layouts over raw regions (queries never touch memory)
     huge(&ctx, &nlay);
+    carved(&ctx, &nlay);
     ctx.extra("universe_cells", json!(u));
     ctx.extra("cell_layouts", json!(cells.len()));
     ctx.extra("layouts_checked", json!(nlay.load(std::sync::atomic::Ordering::Relaxed)));
@@ -358,6 +359,43 @@ pub fn run(tier: Tier, replay: Option<String>) -> i32 {
     ctx.set_exhaustive(true);
     ctx.finish()
 }
+
+/// Regions carved out of ONE host mapping, so that regions adjacent in the guest are adjacent in
+/// the host too (in ascending and in descending host order): a range is still granted as one
+/// slice only inside one region, however the memory behind the regions happens to lie.
+#[cfg(not(feature = "xen"))]
+fn carved(ctx: &Ctx, nlay: &std::sync::atomic::AtomicU64) {
+    use vm_memory::{GuestMemoryMmap, GuestRegionMmap, MmapRegion};
+    const P: u64 = 4096;
+    let arena = crate::arena::Arena::new(6);
+    for descending in [false, true] {
+        // guest: three adjacent regions of 1, 1 and 2 pages, a hole of one page, one more page
+        let l = Layout { regs: vec![(0x10000, P), (0x11000, P), (0x12000, 2 * P), (0x15000, P)] };
+        let host_page: [usize; 4] = if descending { [5, 4, 2, 0] } else { [0, 1, 2, 5] };
+        let mut regions = Vec::new();
+        for ((s, n), hp) in l.regs.iter().zip(host_page) {
+            // SAFETY: the pages belong to the arena, which outlives the map
+            let r = unsafe { MmapRegion::<()>::build_raw(arena.ptr().add(hp * P as usize), *n as usize, libc::PROT_READ | libc::PROT_WRITE, libc::MAP_PRIVATE | libc::MAP_ANONYMOUS) }.unwrap();
+            regions.push(GuestRegionMmap::new(r, GuestAddress(*s)).unwrap());
+        }
+        let m = GuestMemoryMmap::from_regions(regions).unwrap();
+        let mut addrs: BTreeSet<u64> = BTreeSet::new();
+        for (s, n) in &l.regs {
+            for d in [-2i64, -1, 0, 1, 2] {
+                addrs.insert(s.wrapping_add(d as u64));
+                addrs.insert((s + n).wrapping_add(d as u64));
+            }
+            addrs.insert(s + n / 2);
+        }
+        let lens: Vec<usize> = vec![0, 1, 2, 3, 4094, 4095, 4096, 4097, 4098, 8191, 8192, 8193, 12288, 16384, 16385, 24576, usize::MAX];
+        let addrs: Vec<u64> = addrs.into_iter().collect();
+        check_queries(ctx, "mmap", &m, &l, &addrs, &lens, true);
+        nlay.fetch_add(1, std::sync::atomic::Ordering::Relaxed);
+    }
+}
+
+#[cfg(feature = "xen")]
+fn carved(_ctx: &Ctx, _nlay: &std::sync::atomic::AtomicU64) {}
 
 #[cfg(not(feature = "xen"))]
 fn huge(ctx: &Ctx, nlay: &std::sync::atomic::AtomicU64) {
